@@ -469,6 +469,10 @@ func regStd() {
 	})
 	regEnv("encoding/json.Unmarshal", "json.Unmarshal(b, &v): arbitrary content or error", func(ex *Executor, st *State, c *callCtx) []callResult {
 		err := ex.freshErr(st, "unjson")
+		if bt := ex.bytesTerm(st, c.Args[0]); bt != nil {
+			// (json_ok names the outcome so that a replay can choose a decodable input)
+			st.Fact(Eq(isNilT(err), App("json_ok", SBool, bt)))
+		}
 		if p, ok := c.Args[1].(*IfaceV); ok {
 			if pv, ok := p.V.(*PtrV); ok {
 				pt := p.Dyn.Underlying().(*types.Pointer).Elem()
